@@ -95,12 +95,13 @@ Definition reviewed_access : list access := [
   W "originName" "Data.RecoverDataBase"; W "originName" "Data.RecoverData"; R "originName" "Data.SchemaClean"; W "originName" "NewMeasurementInfo"
 ].
 
-(* configuration switches read by the apply path. The differential varies the first four per case (all replicas of a case
-   share one configuration, as the nodes of one cluster do); the others are fixed at their defaults in the harness:
-   HA policy write-available-first, default replica distribution; JoinPeers and SQLiteEnabled are read by Store methods that
-   are reached by name only and are not apply functions. A new switch read by the apply path breaks C15_switches_known. *)
-Definition varied_switches : list string := ["ExpandShardsEnable"; "RetentionAutoCreate"; "UseIncSyncData"; "SchemaCleanEn"].
-Definition fixed_switches : list string := ["GetHaPolicy"; "repDisPolicy"; "JoinPeers"; "SQLiteEnabled"; "IsLogKeeper"].
+(* configuration switches read by the apply path. The differential draws the first six per case (all replicas of a case
+   share one configuration, as the nodes of one cluster do: expand-shards-enable, retention-autocreate, use-inc-sync-data,
+   schema-clean-en, ha-policy in its three values, replica distribution policy node-hard / az-hard); the others are fixed:
+   JoinPeers and SQLiteEnabled are read by Store methods that are reached by name only and are not apply functions;
+   IsLogKeeper at its default. A new switch read by the apply path breaks C15_switches_known. *)
+Definition varied_switches : list string := ["ExpandShardsEnable"; "RetentionAutoCreate"; "UseIncSyncData"; "SchemaCleanEn"; "GetHaPolicy"; "repDisPolicy"].
+Definition fixed_switches : list string := ["JoinPeers"; "SQLiteEnabled"; "IsLogKeeper"].
 
 (* fields whose value may reach a reader of the apply path from BEFORE a restore (or as the zero value of a fresh Data)
    without harm. The translator computes the exposures (Gen_Transient.exposed_reads: a root of the apply path from which a
@@ -205,7 +206,13 @@ Definition value_gaps : list (string * string * string * string) := [
   G "/Databases/[*]/RetentionPolicies/[*]/Measurements/[*]/Options/StorageCapacity" "max-int64" "differs" "unreachable: the command carries an int32";
   G "/Databases/[*]/RetentionPolicies/[*]/Measurements/[*]/Options/StorageCapacity" "max-uint32+1" "differs" "unreachable: the command carries an int32";
   G "/Databases/[*]/RetentionPolicies/[*]/Measurements/[*]/Options/StorageCapacity" "min-int32-1" "differs" "unreachable: the command carries an int32";
-  G "/MigrateEvents/[*]/preState" "*" "differs" "finding:C15-migrate-event-prestate-on-restore";
+  G "/MigrateEvents/[*]/preState" "0" "differs" "finding:C15-migrate-event-prestate-on-restore";
+  G "/MigrateEvents/[*]/preState" "-1" "differs" "finding:C15-migrate-event-prestate-on-restore";
+  G "/MigrateEvents/[*]/preState" "max-int32" "differs" "finding:C15-migrate-event-prestate-on-restore";
+  G "/MigrateEvents/[*]/preState" "max-int32+1" "differs" "unreachable: the command carries an int32";
+  G "/MigrateEvents/[*]/preState" "max-int64" "differs" "unreachable: the command carries an int32";
+  G "/MigrateEvents/[*]/preState" "max-uint32+1" "differs" "unreachable: the command carries an int32";
+  G "/MigrateEvents/[*]/preState" "min-int32-1" "differs" "unreachable: the command carries an int32";
   G "/MigrateEvents/[*]/currState" "max-int32+1" "differs" "unreachable: the command carries an int32";
   G "/MigrateEvents/[*]/currState" "max-int64" "differs" "unreachable: the command carries an int32";
   G "/MigrateEvents/[*]/currState" "max-uint32+1" "differs" "unreachable: the command carries an int32";
